@@ -129,4 +129,13 @@ PROPS = {
         "call returned is the next one handed out; oracle from the raw exchange via the reference codec: negotiation, preference order, encoding "
         "header, threshold, losslessness, isolation of bad calls, instrumented instance discipline; distinct = distinct scheduler-log hash",
         12000, 200000),
+    "C09": e2e(
+        "each run = one call with a read limit N (1,2,5,64,512,1024,65536 or random) on the handler or on the client: honest senders with encoded "
+        "sizes N-1, N, N+1, >>N at stream positions 0..4 with identity/gzip/custom compression and compressible payloads (wire <= N < decompressed, "
+        "up to 1 MiB; 16 MiB thorough); byzantine senders (crafted request into ServeHTTP / crafted response behind HTTPClient.Do) with a declared "
+        "length of 2^32-1 and 3 bytes present, N+1 declared and nothing present, 1 MiB envelopes flagged as plain / end-of-stream / trailers, a 4 MiB "
+        "gzip bomb, a 64 MiB Content-Length on a 5-byte body; sizes on the wire and after decompression are computed by the harness from the "
+        "recorded bytes; the verif pool hook reports the largest buffer the receiver released (bound 4N+64KiB); workers run under a 6 GiB address-space "
+        "limit; distinct = distinct scheduler-log hash among runs with >= 2 candidates",
+        16000, 150000),
 }
